@@ -177,15 +177,25 @@ Theorem C11_clone_copy : forall ops h st',
 Proof. exact run_clone. Qed.
 Print Assumptions C11_clone_copy.
 
-(* Independence: whatever is done later to other handles — to clones of h, to
-   the original h was cloned from, cloning h itself — handle h stays the same
-   value, so all its observations are unchanged. (Value model: that the real
-   Clone shares no memory with its receiver is checked by the harness.) *)
-Theorem C11_clone_independent : forall ops1 ops2 st1 st2 h,
+(* Frame fact OF THE VALUE MODEL (not a proof that the real Clone is
+   independent): in the model a state is a list of Bimap VALUES, so an
+   operation on one handle rewrites one list index and cannot touch another;
+   hence whatever is done later to other handles — to clones of h, to the
+   original h was cloned from, cloning h itself — leaves handle h the same value
+   and all its observations unchanged. This is close to definitional: the
+   model cannot express two handles sharing a Go map, so the clause "Clone is
+   independent of the original" of the property is NOT established by this
+   theorem for the real code. It is established by the harness only, which
+   re-reads every handle after every operation on any handle and compares it
+   with its own reference (a Clone that shared a map with its receiver shows up
+   there as a changed observation of the other handle). What IS proved about
+   Clone is C11_clone_copy: the copy reads like its source and its two maps are
+   allocated by maps.Clone's make, never the receiver's fields. *)
+Theorem C11_frame_value_model : forall ops1 ops2 st1 st2 h,
   run ops1 = Ok st1 -> run (ops1 ++ ops2) = Ok st2 -> (h < length st1)%nat ->
   Forall (fun o => op_target o <> Some h) ops2 -> st2 !! h = st1 !! h.
 Proof. exact run_frame. Qed.
-Print Assumptions C11_clone_independent.
+Print Assumptions C11_frame_value_model.
 
 (* The loops of maps.Clear and maps.Clone give the same result for every order
    in which their range statements produce the keys. *)
@@ -221,11 +231,15 @@ Example C11_example :
 Proof. vm_compute. repeat split. Qed.
 
 (* The correspondence check itself is not vacuous: it accepts a correct
-   recorded observation and rejects one with a single wrong entry. *)
+   recorded observation and rejects one with a single wrong entry, and a
+   stopped Range that was handed the same pair twice. *)
 Example C11_check_case_discriminates :
   let good := Obs [ZB 0 false; ZB 0 true] [ZB 1 true; ZB 0 false] [false; true] [true; false] 1 [ZZ 1 0] 1 [ZZ 1 0] in
   let bad := Obs [ZB 0 false; ZB 0 true] [ZB 0 false; ZB 0 false] [false; true] [true; false] 1 [ZZ 1 0] 1 [ZZ 1 0] in
   check_case (Case [0; 1] 0 [] [St (CAdd 0 1 0) [H 0 good]] [St (CClear 0) []; St (CAdd 0 1 0) [H 0 good]]) = true /\
   check_case (Case [0; 1] 0 [] [St (CAdd 0 1 0) [H 0 bad]] []) = false /\
-  check_case (Case [0; 1] 0 [] [] [St (CAdd 0 1 0) [H 0 good]; St (CAdd 0 1 0) [H 0 bad]]) = false.
+  check_case (Case [0; 1] 0 [] [] [St (CAdd 0 1 0) [H 0 good]; St (CAdd 0 1 0) [H 0 bad]]) = false /\
+  (let two stopped := Obs [ZB 0 true; ZB 1 true] [ZB 0 true; ZB 1 true] [true; true] [true; true] 2 [ZZ 0 0; ZZ 1 1] 2 stopped in
+   check_case (Case [0; 1] 0 [] [St (CAdd 0 0 0) []; St (CAdd 0 1 1) [H 0 (two [ZZ 1 1; ZZ 0 0])]] []) = true /\
+   check_case (Case [0; 1] 0 [] [St (CAdd 0 0 0) []; St (CAdd 0 1 1) [H 0 (two [ZZ 0 0; ZZ 0 0])]] []) = false).
 Proof. vm_compute. repeat split. Qed.
